@@ -85,7 +85,7 @@ theorem reopen_rec {s : Engine} (hR : Rec s)
       s'.propsRoot = s.propsRoot ∧ s'.interner = s.interner ∧ s'.vecs = s.vecs ∧ s'.epoch = s.epoch ∧
       s'.ckptTxid = s.ckptTxid ∧ s'.wal = s.wal ∧
       s'.idmap = { IdMap.load s.idmap.i2e with i2l := s.idmap.i2l } ∧ RunsEq s'.runs s.runs ∧ Rec s' ∧
-      (∀ g ∈ s'.segs, g.id < s'.nextSegId) := by
+      (∀ g ∈ s'.segs, g.id < s'.nextSegId) ∧ s'.storeRoot = s.storeRoot := by
   obtain ⟨⟨txs, hb, hl, hs, hg, b1, b2, b3⟩, hp, ha⟩ := hR
   obtain ⟨sc1, sc2, sc3, sc4⟩ := hs
   have hcov : ∀ x iid, s.idmap.lookup x = some iid → (IdMap.load s.idmap.i2e).lookup x = some iid := by
@@ -94,7 +94,7 @@ theorem reopen_rec {s : Engine} (hR : Rec s)
   let m' : IdMap := { IdMap.load s.idmap.i2e with i2l := s.idmap.i2l ++ [] }
   let s' : Engine :=
     { wal := s.wal, idmap := m', interner := s.interner, runs := R.reverse, segs := s.segs, segStore := s.segStore,
-      store := s.store, vecs := s.vecs, nextTxid := max ((scanRecovery txs).maxTxid + 1) 1,
+      store := s.store, storeRoot := s.storeRoot, vecs := s.vecs, nextTxid := max ((scanRecovery txs).maxTxid + 1) 1,
       nextSegId := max (s.segs.foldl (fun m g => max m g.id) 0 + 1) 1, epoch := s.epoch,
       ckptTxid := s.ckptTxid, propsRoot := s.propsRoot }
   have hfind := mapM_find_self s.segStore s.segs hK
@@ -106,7 +106,7 @@ theorem reopen_rec {s : Engine} (hR : Rec s)
     simp only [e1, hl, sc1, sc2, sc3, sc4, e3, e4, bind, Except.bind, pure, Except.pure]
     rfl
   have hlk : ∀ x, s'.idmap.lookup x = s.idmap.lookup x := hload
-  refine ⟨s', hopen, rfl, rfl, rfl, rfl, rfl, rfl, rfl, rfl, rfl, ?_, hE, ?_, ?_⟩
+  refine ⟨s', hopen, rfl, rfl, rfl, rfl, rfl, rfl, rfl, rfl, rfl, ?_, hE, ?_, ?_, rfl⟩
   rotate_left 2
   · intro g hg
     show g.id < max (s.segs.foldl (fun m g => max m g.id) 0 + 1) 1
@@ -135,7 +135,7 @@ theorem reopen_rec {s : Engine} (hR : Rec s)
     reopened engine satisfies `Sim` for the SAME Spec graph, and `Rec` again -/
 theorem reopen_sim {s : Engine} {g : Graph} (hS : Sim s g) (hR : Rec s) :
     ∃ s', s.reopen = .ok s' ∧ Sim s' g ∧ Rec s' := by
-  obtain ⟨s', hopen, h1, _, _, h4, h5, _, _, _, _, hid, hE, hR', _⟩ :=
+  obtain ⟨s', hopen, h1, _, _, h4, h5, _, _, _, _, hid, hE, hR', _, _⟩ :=
     reopen_rec hR (by rw [hS.G.segs]; intro g hg; cases hg) (load_lookup_eq hS.L)
   have hlk : ∀ x, s'.idmap.lookup x = s.idmap.lookup x := by
     intro x; rw [hid]; exact load_lookup_eq hS.L x
